@@ -78,6 +78,9 @@ pub struct BuildCfg {
     /// scriptlets and changelog entries were added: the order of builder calls must not matter
     #[serde(default)]
     pub late_setters: bool,
+    /// seeded random interleaving of all builder calls (see `call_sequence`)
+    #[serde(default)]
+    pub call_order_seed: Option<u64>,
 }
 
 pub fn file_content(f: &FileCfg) -> Vec<u8> {
@@ -231,89 +234,163 @@ pub fn file_flags_expected(f: &FileCfg) -> u32 {
     b
 }
 
+/// one builder call
+#[derive(Clone, Copy, Debug)]
+enum Call {
+    Scalar(usize),
+    File(usize),
+    Dep(usize),
+    Script(usize),
+    Changelog(usize),
+}
+
+/// The sequence of builder calls for a configuration. Default: scalars, files, dependencies,
+/// scriptlets, changelog. `late_setters`: scalars last. `call_order_seed`: a seeded random
+/// interleaving of the groups that keeps the relative order inside each group (dependencies of one
+/// kind and changelog entries must stay in the order they were supplied) - the order of builder
+/// calls must not matter.
+fn call_sequence(cfg: &BuildCfg) -> Vec<Call> {
+    let scalars: Vec<Call> = (0..12).map(Call::Scalar).collect();
+    let files: Vec<Call> = (0..cfg.files.len()).map(Call::File).collect();
+    let scripts: Vec<Call> = (0..cfg.scripts.len()).map(Call::Script).collect();
+    let changelog: Vec<Call> = (0..cfg.changelog.len()).map(Call::Changelog).collect();
+    // dependencies: one group per kind, so that kinds can interleave but each list keeps its order
+    let mut dep_groups: Vec<Vec<Call>> = (0..8).map(|k| (0..cfg.deps.len()).filter(|i| cfg.deps[*i].kind.min(7) == k).map(Call::Dep).collect()).collect();
+    match cfg.call_order_seed {
+        None => {
+            let deps: Vec<Call> = (0..cfg.deps.len()).map(Call::Dep).collect();
+            let mut v = Vec::new();
+            if !cfg.late_setters {
+                v.extend(scalars.iter().copied());
+            }
+            v.extend(files);
+            v.extend(deps);
+            v.extend(scripts);
+            v.extend(changelog);
+            if cfg.late_setters {
+                v.extend(scalars);
+            }
+            v
+        }
+        Some(seed) => {
+            let mut r = Rng::new(seed);
+            // every scalar setter and every file / scriptlet is its own group (free to move)
+            let mut groups: Vec<Vec<Call>> = Vec::new();
+            groups.extend(scalars.into_iter().map(|c| vec![c]));
+            groups.extend(files.into_iter().map(|c| vec![c]));
+            groups.extend(scripts.into_iter().map(|c| vec![c]));
+            groups.append(&mut dep_groups);
+            groups.push(changelog);
+            groups.retain(|g| !g.is_empty());
+            let mut v = Vec::new();
+            while !groups.is_empty() {
+                let g = r.usize(groups.len());
+                v.push(groups[g].remove(0));
+                if groups[g].is_empty() {
+                    groups.remove(g);
+                }
+            }
+            v
+        }
+    }
+}
+
 /// Assemble the builder for a configuration whose sources are already on disk.
 pub fn builder_for(cfg: &BuildCfg, sources: &[PathBuf]) -> Result<PackageBuilder, rpm::Error> {
     let mut b = PackageBuilder::new(&cfg.name, &cfg.version, &cfg.license, &cfg.arch, &cfg.summary);
-    if !cfg.late_setters {
-        b = scalar_setters(cfg, b);
-    }
-    for (f, p) in cfg.files.iter().zip(sources) {
-        b = b.with_file(p, file_options(f)?)?;
-    }
-    for d in &cfg.deps {
-        let dep = dep_of(d);
-        b = match d.kind {
-            0 => b.provides(dep),
-            1 => b.requires(dep),
-            2 => b.conflicts(dep),
-            3 => b.obsoletes(dep),
-            4 => b.recommends(dep),
-            5 => b.suggests(dep),
-            6 => b.enhances(dep),
-            _ => b.supplements(dep),
+    for call in call_sequence(cfg) {
+        b = match call {
+            Call::Scalar(i) => scalar_setter(cfg, b, i),
+            Call::File(i) => b.with_file(&sources[i], file_options(&cfg.files[i])?)?,
+            Call::Dep(i) => {
+                let d = &cfg.deps[i];
+                let dep = dep_of(d);
+                match d.kind {
+                    0 => b.provides(dep),
+                    1 => b.requires(dep),
+                    2 => b.conflicts(dep),
+                    3 => b.obsoletes(dep),
+                    4 => b.recommends(dep),
+                    5 => b.suggests(dep),
+                    6 => b.enhances(dep),
+                    _ => b.supplements(dep),
+                }
+            }
+            Call::Script(i) => {
+                let s = &cfg.scripts[i];
+                let sc = scriptlet_of(s);
+                match s.which {
+                    0 => b.pre_install_script(sc),
+                    1 => b.post_install_script(sc),
+                    2 => b.pre_uninstall_script(sc),
+                    3 => b.post_uninstall_script(sc),
+                    4 => b.pre_trans_script(sc),
+                    5 => b.post_trans_script(sc),
+                    6 => b.pre_untrans_script(sc),
+                    7 => b.post_untrans_script(sc),
+                    _ => b.verify_script(sc),
+                }
+            }
+            Call::Changelog(i) => {
+                let (n, t, ts) = &cfg.changelog[i];
+                b.add_changelog_entry(n, t, *ts)
+            }
         };
-    }
-    for s in &cfg.scripts {
-        let sc = scriptlet_of(s);
-        b = match s.which {
-            0 => b.pre_install_script(sc),
-            1 => b.post_install_script(sc),
-            2 => b.pre_uninstall_script(sc),
-            3 => b.post_uninstall_script(sc),
-            4 => b.pre_trans_script(sc),
-            5 => b.post_trans_script(sc),
-            6 => b.pre_untrans_script(sc),
-            7 => b.post_untrans_script(sc),
-            _ => b.verify_script(sc),
-        };
-    }
-    for (n, t, ts) in &cfg.changelog {
-        b = b.add_changelog_entry(n, t, *ts);
-    }
-    if cfg.late_setters {
-        b = scalar_setters(cfg, b);
     }
     Ok(b)
 }
 
-fn scalar_setters(cfg: &BuildCfg, mut b: PackageBuilder) -> PackageBuilder {
-    if let Some(r) = &cfg.release {
-        b = b.release(r.clone());
+fn scalar_setter(cfg: &BuildCfg, b: PackageBuilder, i: usize) -> PackageBuilder {
+    match i {
+        0 => match &cfg.release {
+            Some(r) => b.release(r.clone()),
+            None => b,
+        },
+        1 => match cfg.epoch {
+            Some(e) => b.epoch(e),
+            None => b,
+        },
+        2 => match &cfg.description {
+            Some(x) => b.description(x.clone()),
+            None => b,
+        },
+        3 => match &cfg.vendor {
+            Some(x) => b.vendor(x.clone()),
+            None => b,
+        },
+        4 => match &cfg.packager {
+            Some(x) => b.packager(x.clone()),
+            None => b,
+        },
+        5 => match &cfg.group {
+            Some(x) => b.group(x.clone()),
+            None => b,
+        },
+        6 => match &cfg.url {
+            Some(x) => b.url(x.clone()),
+            None => b,
+        },
+        7 => match &cfg.vcs {
+            Some(x) => b.vcs(x.clone()),
+            None => b,
+        },
+        8 => match &cfg.cookie {
+            Some(x) => b.cookie(x.clone()),
+            None => b,
+        },
+        9 => match &cfg.build_host {
+            Some(x) => b.build_host(x.clone()),
+            None => b,
+        },
+        10 => match cfg.source_date {
+            Some(t) => b.source_date(t),
+            None => b,
+        },
+        _ => match compression_of(cfg) {
+            Some(c) => b.compression(c),
+            None => b,
+        },
     }
-    if let Some(e) = cfg.epoch {
-        b = b.epoch(e);
-    }
-    if let Some(x) = &cfg.description {
-        b = b.description(x.clone());
-    }
-    if let Some(x) = &cfg.vendor {
-        b = b.vendor(x.clone());
-    }
-    if let Some(x) = &cfg.packager {
-        b = b.packager(x.clone());
-    }
-    if let Some(x) = &cfg.group {
-        b = b.group(x.clone());
-    }
-    if let Some(x) = &cfg.url {
-        b = b.url(x.clone());
-    }
-    if let Some(x) = &cfg.vcs {
-        b = b.vcs(x.clone());
-    }
-    if let Some(x) = &cfg.cookie {
-        b = b.cookie(x.clone());
-    }
-    if let Some(x) = &cfg.build_host {
-        b = b.build_host(x.clone());
-    }
-    if let Some(t) = cfg.source_date {
-        b = b.source_date(t);
-    }
-    if let Some(c) = compression_of(cfg) {
-        b = b.compression(c);
-    }
-    b
 }
 
 /// Build a configuration (sources are created in `dir`).
@@ -537,6 +614,7 @@ pub fn gen_cfg(r: &mut Rng, o: &GenOpts) -> BuildCfg {
         }
     }
     cfg.late_setters = r.chance(1, 3);
+    cfg.call_order_seed = if r.chance(1, 3) { Some(r.next()) } else { None };
     let ncl = r.usize(4);
     for i in 0..ncl {
         cfg.changelog.push((format!("Author {i} <a{i}@example.com> - 1.{i}-1"), rand_string(r), [0u32, 840_000_000, 1_681_411_811, u32::MAX][r.usize(4)]));
